@@ -79,6 +79,9 @@ func HarnessAdmission() {
 			_, still := st.banned[c18Host]
 			vh.Assert("C18/ban-kept-until-expiry-then-dropped", still == banActive)
 		}
+		// the refused peer was disconnected, so its done event follows: it was never counted
+		s.handleDonePeerMsg(st, sp)
+		vh.Assert("C18/refused-peer-leaving-changes-no-counter", st.Count() == total && st.connectionCount[c18Host] == cnt && st.outboundGroups[group] == grp)
 		vh.Reach("refused")
 		return
 	}
